@@ -777,6 +777,18 @@ REFINED = [
     "insert(0, 0xff) for -(2^(8k)) and the sign byte at the front, word/dword_from_be_bytes_partial, from_be_bytes, from_signed_be_bytes, from_be_bytes_large with "
     "rchunks_exact + remainder), executed by the driver for u.be / i.be / u.from_be / i.from_be: equal to the mirror-image model, hence to the positional / two's "
     "complement specification, mutually inverse, all W = 8k (be_bytes_mirrored)",
+    "convert.rs TypedReprRef::to_chunks RefLarge arm with its chunk BUFFERS as bounded arrays (Model/Text/ChunksBuf.lean, round 6, the code of fix 80bcfde): "
+    "word_per_chunk = ceil_div(chunk_bits, WORD_BITS).min(words.len()), every buffer word_per_chunk + 1 zero words; words_to_chunks (aligned shortcut and general "
+    "path) with every slice range on `words` and on `chunk_out`, every usize subtraction and debug_assert!(start < end) an error branch: nothing fails, chunks = "
+    "positional chunks, buffer <= words.len() + 1 words whatever chunk_bits is — every number, every k >= 1, every W (to_chunks_buffers_never_overrun); the driver "
+    "runs this bounded model for u.chunks",
+    "Tie A (round 6): word_per_chunk (with the clamp .min(words.len()) of 80bcfde), the arguments of Buffer::allocate / push_zeros of to_chunks, the shortcut test, "
+    "words_per_chunk, start_pos, end_pos (clamp of 49f0136) of words_to_chunks and math::ceil_div are regenerated from convert.rs / math.rs on every run "
+    "(vlib/extract_textchunks.py -> Dashu/Gen/TextChunks.lean); toChunksB on heap values IS the program assembled from these texts (chunk_buffer_formulas_regenerated, by rfl): "
+    "dropping the + 1, a clamp, or changing an index expression breaks the theorem, a change of shape fails closed (unit-tested on 7 mutated source texts)",
+    "chunks_to_words on a result buffer of any length R with room for the last chunk and for the total (Proofs/Text/ChunksTight.lean chunksToWords_spec_len); instance: "
+    "result_len = max_len + ceil_div((len-1)*chunk_bits, WORD_BITS) + 1 of the proposed fix c07-from-chunks-result-len-words (fromChunksWT) = the current code's "
+    "result (fromChunksW) = sum chunk_i 2^(i k), all word slices, all k >= 1, all W (from_chunks_result_len_in_words)",
     "Tie A: radix::digit_from_ascii_byte (three byte ranges, offsets, `res < radix`), is_radix_valid, MIN_RADIX, MAX_RADIX regenerated from radix.rs on every run "
     "(Dashu/Gen/TextDigit.lean); the hand model of the grammar theorems (digitOf, validRadix) equals the regenerated text for every byte and radix "
     "(digit_table_regenerated)",
@@ -794,8 +806,10 @@ FRONTIER = [
     "log_word_base's f32 first guess is a parameter `est` of the Debug model (theorems hold for every est passing the function's own assert!; that the real "
     "estimate passes it is C10's clause); the two DigitWriters of DoubleEnd::format_prepared receive one piece each and are modelled by the per-byte conversion "
     "(equal by digit_writer_swar_sound)",
-    "from_chunks with two or more chunks is driven for chunk_bits <= 2^16 only (its result buffer has max_len + (len-1)*chunk_bits + 1 WORDS, which the "
-    "implementation really allocates); to_chunks is driven for every chunk size since fix 80bcfde",
+    "from_chunks with two or more chunks is driven for chunk_bits <= 2^16 only: Repr::from_chunks allocates and zero-fills max_len + (len-1)*chunk_bits + 1 WORDS — "
+    "a bit offset counted as words, 64 times the memory of the result (from_chunks([1,1], 1<<28): 2 GiB for a 32 MiB number; `panic OutOfMemory` under "
+    "`ulimit -v 1500000`). Reported as a defect with proposed_fixes/c07-from-chunks-result-len-words.diff (proved right: from_chunks_result_len_in_words); it needs an "
+    "address-space limit to be observed, which the harness does not set, so the check has no case and no finding entry for it; to_chunks is driven for every chunk size since fix 80bcfde",
 ]
 THEOREMS = ["Dashu.Props.C07." + t for t in [
     "positional_representation", "radix_table", "print_non_pow2_digits", "print_size_classes", "big_chunk_padded",
@@ -806,7 +820,7 @@ THEOREMS = ["Dashu.Props.C07." + t for t in [
     "medium_on_words", "write_chunk_on_words", "dword_split_on_words",
     "fast_divide_small_exact", "swar_digit_chunk", "low_layer_constants_regenerated", "digit_writer_swar_sound",
     "digit_writer_write_invariant", "print_on_mirrored_low_layer", "raw_digits_on_mirrored_division",
-    "write_pieces_recorded", "write_pieces_shape", "print_on_recorded_pieces", "chunks_inverse", "digit_table_regenerated", "chunk_spec_guards", "ubig_bytes_inverse_canonical", "be_bytes_mirrored"]] + [
+    "write_pieces_recorded", "write_pieces_shape", "print_on_recorded_pieces", "chunks_inverse", "digit_table_regenerated", "chunk_spec_guards", "ubig_bytes_inverse_canonical", "be_bytes_mirrored", "to_chunks_buffers_never_overrun", "from_chunks_result_len_in_words", "chunk_buffer_formulas_regenerated"]] + [
     "Dashu.Props.C07Debug." + t for t in ["debug_head_tail_on_words", "debug_text", "debug_text_est_one", "debug_head_tail_true_digits"]]
 EXPLANATION = ("Lean theorems for every word size, radix 2..36 and integer: the printing model (all size classes of both printers) "
                "produces exactly the positional digits; the parsing model equals the documented grammar as a total function on byte "
@@ -843,7 +857,7 @@ LEVEL_TEXT = ("Machine-checked Lean 4 theorems about an executable model of dash
 LEVEL_NOTE = ("Trusted: Lean kernel; axioms propext/Classical.choice/Quot.sound; the correspondence harness and generators (sampling) "
               "for the tie model<->code; division/multiplication kernels used inside the converters are exact arithmetic in the model "
               "(frontier, see evidence). Constants of the SWAR routine, DigitCase, the DigitWriter buffer, both CHUNK_LENs and the tower-loop test "
-              "and the parsers' digit table (digit_from_ascii_byte, is_radix_valid) are regenerated from the source text on every run (Tie A). Six defects found by this check "
+              "and the parsers' digit table (digit_from_ascii_byte, is_radix_valid) and the chunk-buffer arithmetic of to_chunks / words_to_chunks are regenerated from the source text on every run (Tie A). Six defects found by this check "
               "were repaired in /repo (`fixed:` lines of known_findings.jsonl; the last one, to_chunks with chunk_bits >= 2^63 on a heap value, by 80bcfde); model and "
-              "theorems describe the repaired code. No open finding.")
+              "theorems describe the repaired code. No open finding entry; one reported defect is outside what the check can observe (from_chunks over-allocates 64x, see FRONTIER).")
 TECHNIQUE = "Lean 4 refinement proofs (positional-representation algebra, induction over digit/word lists, all W) + differential correspondence model vs real code + comparison with Rust primitive formatting"
